@@ -10,6 +10,9 @@ def run(ctx):
     ca.filter_first(ctx, "J1939_21")
     ca.filter_first(ctx, "J1939_22")
     ca.subscriber_rule(ctx)
+    from rules import ecu as _E
+    ctx.rule("R-REMOVE-ALL", "unsubscribe removes every binding of the callback (no address stays `owned` by a removed listener)", floor=2)
+    _E.remove_all(ctx)
     ctx.rule("R-CA-LOOPS", "filter and dispatch loops over the stack's CAs consult every CA (no early exit)", floor=4)
     ca.ca_loops(ctx, "J1939_21")
     ca.ca_loops(ctx, "J1939_22")
